@@ -159,10 +159,119 @@ def _variant_idx(name):
     return None
 
 
+def _succs(blk):
+    t = blk["t"]
+    if t[2] == "goto":
+        return [t[3]]
+    if t[2] == "drop":
+        return [t[4]]
+    if t[2] == "switch":
+        return [tg_ for _, tg_ in t[4]] + ([t[5]] if t[5] is not None else [])
+    return None
+
+
+def _tail_dup(blocks, bo, n, ret_local, start, ret_blocks, make_final):
+    """Private copy of the callee's exit region from `start` to its return block(s): gotos, scope-exit drops and
+    drop-elaboration switches (open drops / drop flags), none of which touches the return place. Each return block j reached is
+    replaced by make_final(j) (index of a freshly appended continuation). Returns the index to jump to instead of `start`, or
+    None when the region has another shape (too big, cyclic, leaves the callee, writes the return place)."""
+    region, order, work = set(), [], [start]
+    while work:
+        j = work.pop()
+        if j in region or j in ret_blocks:
+            continue
+        if not (bo <= j < bo + n) or len(region) >= 12 or any(st[2] == "=" and st[3][0] == ret_local for st in blocks[j]["s"]):
+            return None
+        sj = _succs(blocks[j])
+        if sj is None:
+            return None
+        region.add(j)
+        order.append(j)
+        work.extend(sj)
+    state = {}
+
+    def cyc(j):
+        if j not in region:
+            return False
+        if state.get(j) == 1:
+            return True
+        if state.get(j) == 2:
+            return False
+        state[j] = 1
+        r = any(cyc(x) for x in _succs(blocks[j]))
+        state[j] = 2
+        return r
+    if any(cyc(j) for j in order):
+        return None
+    remap = {}
+    nxt = len(blocks)
+    for j in order:
+        remap[j] = nxt
+        nxt += 1
+    new_blocks = []
+    for j in order:
+        src = blocks[j]
+        new_blocks.append({"c": src["c"], "s": list(src["s"]), "t": list(src["t"])})
+    blocks.extend(new_blocks)
+    finals = {}
+
+    def mp(j):
+        if j in remap:
+            return remap[j]
+        if j in ret_blocks:
+            if j not in finals:
+                finals[j] = make_final(j)
+            return finals[j]
+        return j
+    for nb in new_blocks:
+        t2 = nb["t"]
+        if t2[2] == "goto":
+            t2[3] = mp(t2[3])
+        elif t2[2] == "drop":
+            t2[4] = mp(t2[4])
+        else:
+            t2[4] = [[v_, mp(tg_)] for v_, tg_ in t2[4]]
+            t2[5] = mp(t2[5]) if t2[5] is not None else None
+    return mp(start)
+
+
+def _const_sources(blocks, bo, n, ret_local):
+    """(block index, constant, successor, how to redirect) for every callee block that gives the return place a constant:
+    a statement `ret = const / Variant(..)` in a goto block, or `ret = FromResidual::from_residual(..)` (always Err / None)."""
+    out = []
+    for i in range(bo, bo + n):
+        b = blocks[i]
+        t = b["t"]
+        if t[2] == "goto":
+            c = None
+            for st in b["s"]:
+                if st[2] == "=" and st[3] == [ret_local, []]:
+                    c = _const_of(st[4])
+            if c is not None:
+                out.append((i, c, t[3], "goto"))
+        elif t[2] == "call" and isinstance(t[3], dict) and str(t[3].get("d", "")).endswith("FromResidual::from_residual") and t[5] == [ret_local, []] and t[6] is not None:
+            ty = str(t[3].get("self", ""))
+            vn = "std::result::Result::Err" if "Result<" in ty else ("std::option::Option::None" if "Option<" in ty else None)
+            if vn:
+                out.append((i, ("variant", vn), t[6], "call"))
+    return out
+
+
+def _redirect(blocks, i, how, new_target):
+    b = blocks[i]
+    t = list(b["t"])
+    if how == "goto":
+        t[3] = new_target
+    else:
+        t[6] = new_target
+    blocks[i] = {"c": b["c"], "s": list(b["s"]), "t": t}
+
+
 def _thread_try(blocks, bo, n, ret_local, target):
     """`helper(..)?`: the continuation calls Try::branch(dest) and switches on the ControlFlow it returns. A path of the helper
-    that returns a constant Ok(..)/Some(..) continues, one that returns Err(..)/None breaks: send each through private copies of
-    the two continuation blocks straight to that arm (the Try::branch call itself is kept, its result is still read)."""
+    that returns a constant Ok(..)/Some(..) continues, one that returns Err(..)/None (or `?`-propagates an error of its own)
+    breaks: send each through private copies of the two continuation blocks straight to that arm (the Try::branch call itself
+    is kept, its result is still read)."""
     T = blocks[target]
     tt = T["t"]
     if len(tt[4]) != 1 or tt[4][0][0] != "m" or tt[4][0][1][1]:
@@ -189,15 +298,8 @@ def _thread_try(blocks, bo, n, ret_local, target):
     if not ok_shape:
         return
     ret_blocks = set(i for i in range(bo, bo + n) if any(st[2] == "=" and st[4][0] == "use" and st[4][1][0] == "m" and st[4][1][1] == [ret_local, []] and st[3] == [dest, []] for st in blocks[i]["s"]))
-    for i in range(bo, bo + n):
-        b = blocks[i]
-        if b["t"][2] != "goto":
-            continue
-        c = None
-        for st in b["s"]:
-            if st[2] == "=" and st[3] == [ret_local, []]:
-                c = _const_of(st[4])
-        if c is None or c[0] != "variant":
+    for (i, c, start, how) in _const_sources(blocks, bo, n, ret_local):
+        if c[0] != "variant":
             continue
         vn = c[1].rsplit("::", 1)[1]
         if vn in ("Ok", "Some"):
@@ -212,30 +314,19 @@ def _thread_try(blocks, bo, n, ret_local, target):
                 tg = t
         if tg is None:
             tg = t2[5]
-        j, hops, chain = b["t"][3], 0, []
-        while j not in ret_blocks and hops < 16 and bo <= j < bo + n and blocks[j]["t"][2] in ("goto", "drop") \
-                and not any(st[2] == "=" and st[3][0] == ret_local for st in blocks[j]["s"]):
-            chain.append(j)
-            j = blocks[j]["t"][3] if blocks[j]["t"][2] == "goto" else blocks[j]["t"][4]
-            hops += 1
-        if j not in ret_blocks:
-            continue
-        first_new = len(blocks)
-        for k, cj in enumerate(chain):
-            src = blocks[cj]
-            t3 = list(src["t"])
-            if t3[2] == "goto":
-                t3[3] = first_new + k + 1
-            else:
-                t3[4] = first_new + k + 1
-            blocks.append({"c": src["c"], "s": list(src["s"]), "t": t3})
-        base = len(blocks)
-        # copy of the return block (dest = move ret), then Try::branch, then the discriminant read, then the chosen arm
-        callt = list(tt)
-        callt[6] = base + 1
-        blocks.append({"c": b["c"], "s": list(blocks[j]["s"]) + list(T["s"]), "t": callt})
-        blocks.append({"c": b["c"], "s": list(T2["s"]), "t": [t2[0], t2[1], "goto", tg]})
-        blocks[i] = {"c": b["c"], "s": list(b["s"]), "t": [b["t"][0], b["t"][1], "goto", first_new if chain else base]}
+        src_c = blocks[i]["c"]
+
+        def make_final(j, tg=tg, src_c=src_c):
+            # copy of the return block (dest = move ret), then Try::branch, then the discriminant read, then the chosen arm
+            base = len(blocks)
+            callt = list(tt)
+            callt[6] = base + 1
+            blocks.append({"c": src_c, "s": list(blocks[j]["s"]) + list(T["s"]), "t": callt})
+            blocks.append({"c": src_c, "s": list(T2["s"]), "t": [t2[0], t2[1], "goto", tg]})
+            return base
+        new_start = _tail_dup(blocks, bo, n, ret_local, start, ret_blocks, make_final)
+        if new_start is not None:
+            _redirect(blocks, i, how, new_start)
 
 
 def _thread_constant_returns(blocks, bo, n, ret_local, target):
@@ -294,118 +385,18 @@ def _thread_constant_returns(blocks, bo, n, ret_local, target):
                 return tg
         return tt[5]
     ret_blocks = set(i for i in range(bo, bo + n) if any(st[2] == "=" and st[4][0] == "use" and st[4][1][0] == "m" and st[4][1][1] == [ret_local, []] and st[3] == [dest, []] for st in blocks[i]["s"]))
-    for i in range(bo, bo + n):
-        b = blocks[i]
-        if b["t"][2] != "goto":
-            continue
-        # last assignment to the callee's return place in this block
-        c = None
-        for st in b["s"]:
-            if st[2] == "=" and st[3] == [ret_local, []]:
-                c = _const_of(st[4])
-        if c is None:
-            continue
-        # the exit region: the callee blocks between this assignment and the return block(s) -- gotos, scope-exit drops and
-        # drop-elaboration switches (open drops / drop flags), none of which touches the return place
-        def succs(blk):
-            t = blk["t"]
-            if t[2] == "goto":
-                return [t[3]]
-            if t[2] == "drop":
-                return [t[4]]
-            if t[2] == "switch":
-                return [tg_ for _, tg_ in t[4]] + ([t[5]] if t[5] is not None else [])
-            return None
-        region, order, ok, work = set(), [], True, [b["t"][3]]
-        while work and ok:
-            j = work.pop()
-            if j in region or j in ret_blocks:
-                continue
-            if not (bo <= j < bo + n) or len(region) >= 12 or any(st[2] == "=" and st[3][0] == ret_local for st in blocks[j]["s"]):
-                ok = False
-                break
-            sj = succs(blocks[j])
-            if sj is None:
-                ok = False
-                break
-            region.add(j)
-            order.append(j)
-            work.extend(sj)
-        if not ok:
-            continue
-        # acyclic?
-        state = {}
-
-        def cyc(j):
-            if j not in region:
-                return False
-            if state.get(j) == 1:
-                return True
-            if state.get(j) == 2:
-                return False
-            state[j] = 1
-            r = any(cyc(x) for x in succs(blocks[j]))
-            state[j] = 2
-            return r
-        if any(cyc(j) for j in order):
-            continue
+    for (i, c, start, how) in _const_sources(blocks, bo, n, ret_local):
         tg = pick(c)
         if tg is None:
             continue
-        # private copy of the region (tail duplication); every return block becomes a jump to the arm this constant selects
-        remap = {}
-        nxt = len(blocks)
-        for j in order:
-            remap[j] = nxt
-            nxt += 1
-        finals = {}
+        src = blocks[i]
 
-        def final_for(j):
-            if j not in finals:
-                finals[j] = None  # placeholder, filled below
-            return ("final", j)
-        new_blocks = []
-        need_final = []
-
-        def mp(j):
-            if j in remap:
-                return remap[j]
-            if j in ret_blocks:
-                if j not in need_final:
-                    need_final.append(j)
-                return ("final", j)
-            return j
-        for j in order:
-            src = blocks[j]
-            t2 = list(src["t"])
-            if t2[2] == "goto":
-                t2[3] = mp(t2[3])
-            elif t2[2] == "drop":
-                t2[4] = mp(t2[4])
-            else:
-                t2[4] = [[v_, mp(tg_)] for v_, tg_ in t2[4]]
-                t2[5] = mp(t2[5]) if t2[5] is not None else None
-            new_blocks.append({"c": src["c"], "s": list(src["s"]), "t": t2})
-        first_tgt = mp(b["t"][3])
-        fidx = {}
-        for k, j in enumerate(need_final):
-            fidx[j] = len(blocks) + len(new_blocks) + k
-
-        def fix(x):
-            return fidx[x[1]] if isinstance(x, tuple) else x
-        for nb in new_blocks:
-            t2 = nb["t"]
-            if t2[2] == "goto":
-                t2[3] = fix(t2[3])
-            elif t2[2] == "drop":
-                t2[4] = fix(t2[4])
-            else:
-                t2[4] = [[v_, fix(tg_)] for v_, tg_ in t2[4]]
-                t2[5] = fix(t2[5]) if t2[5] is not None else None
-        blocks.extend(new_blocks)
-        for j in need_final:
-            blocks.append({"c": b["c"], "s": list(blocks[j]["s"]) + list(T["s"]), "t": [b["t"][0], b["t"][1], "goto", tg]})
-        blocks[i] = {"c": b["c"], "s": list(b["s"]), "t": [b["t"][0], b["t"][1], "goto", fix(first_tgt)]}
+        def make_final(j, tg=tg, src=src):
+            blocks.append({"c": src["c"], "s": list(blocks[j]["s"]) + list(T["s"]), "t": [src["t"][0], src["t"][1], "goto", tg]})
+            return len(blocks) - 1
+        new_start = _tail_dup(blocks, bo, n, ret_local, start, ret_blocks, make_final)
+        if new_start is not None:
+            _redirect(blocks, i, how, new_start)
 
 
 def _scc_ids(prog):
